@@ -130,3 +130,35 @@ package message
 //@   canary   r
 //@   canary   !r
 //@   modifies nothing
+
+// CRC_EXTRA (third function literal of Initialize): the sequence of byte strings fed to ONE X25 hash is exactly the
+// sequence the MAVLink specification prescribes -- message name and a space; then, for every base field in table
+// order, its C type name and a space, its field name and a space, and its array length as one byte when it is an
+// array; extension fields contribute nothing -- and the result is the xor of the two bytes of the final CRC.
+// (X25 itself is the CRC-16/MCRF4XX of what it is fed: pkg/x25 contracts.)
+//@ func (*ReadWriter).Initialize$3 captures (msgName string, rw *ReadWriter) returns (r)
+//@   ghostlog (*x25.X25).Write, (*x25.X25).Sum16
+//@   let F = rw.fields[i]
+//@   let LAST = logLen()-1
+//@   requires rw != nil
+//@   requires forall j int :: 0 <= j && j < len(rw.fields) ==> rw.fields[j] != nil
+//@   ensures  [message-name-first] logCallee(0, "(*x25.X25).Write") && logBytesAre(0, msgName + " ")
+//@   ensures  [xor-fold-of-the-final-crc] logCallee(LAST, "(*x25.X25).Sum16") &&
+//@              r == byte((uint16(logRetInt(LAST, 0)) & 0xFF) ^ (uint16(logRetInt(LAST, 0)) >> 8))
+//@   ensures  [one-hash-object] logArg(LAST, 0) == logArg(0, 0)
+//@   modifies ghost:log
+//@   loop 0 bind i int = rangeindex
+//@   loop 0 invariant -1 <= i && i < len(rw.fields)
+//@   loop 0 invariant logLen() >= 1 && logCallee(0, "(*x25.X25).Write") && logBytesAre(0, msgName + " ")
+//@   loop 0 body-ensures [extension-fields-are-not-hashed] F.isExtension ==> logLen() == 0
+//@   loop 0 body-ensures [base-field-type-name-length] !F.isExtension ==> logLen() >= 2 && logCallee(0, "(*x25.X25).Write") && logCallee(1, "(*x25.X25).Write") &&
+//@              logBytesAre(1, F.name + " ") && (F.arrayLength == 0 ==> logLen() == 2) &&
+//@              (F.arrayLength > 0 ==> logLen() == 3 && logCallee(2, "(*x25.X25).Write") && logN(2) == 1 && logByte(2, 0) == F.arrayLength)
+//@   loop 0 body-ensures [c-type-names] !F.isExtension ==>
+//@              (F.ftype == typeDouble ==> logBytesAre(0, "double ")) && (F.ftype == typeUint64 ==> logBytesAre(0, "uint64_t ")) &&
+//@              (F.ftype == typeInt64 ==> logBytesAre(0, "int64_t ")) && (F.ftype == typeFloat ==> logBytesAre(0, "float ")) &&
+//@              (F.ftype == typeUint32 ==> logBytesAre(0, "uint32_t ")) && (F.ftype == typeInt32 ==> logBytesAre(0, "int32_t ")) &&
+//@              (F.ftype == typeUint16 ==> logBytesAre(0, "uint16_t ")) && (F.ftype == typeInt16 ==> logBytesAre(0, "int16_t ")) &&
+//@              (F.ftype == typeUint8 ==> logBytesAre(0, "uint8_t ")) && (F.ftype == typeInt8 ==> logBytesAre(0, "int8_t ")) &&
+//@              (F.ftype == typeChar ==> logBytesAre(0, "char "))
+//@   loop 0 body-ensures [same-hash-object] logLen() >= 1 ==> logArg(0, 0) == logArg(logLen()-1, 0)
